@@ -150,6 +150,8 @@ def err_class(e: BaseException):
         return "KeyErr"
     if isinstance(e, AssertionError):
         return "AssertErr"
+    if isinstance(e, OverflowError):
+        return "OverflowErr"
     if isinstance(e, ValueError):
         return "ValueErr"
     return type(e).__name__
